@@ -434,7 +434,9 @@ def option_case(ctx, tri, wire, impl_default, opt, stat_fields, reqs, cases):
         ctx.fail(f"build_plot_data({label}) raised {recs} on a valid triangle: no record for any cell", case)
         return
     left = []
+    raw_flat = None
     if flat:
+        raw_flat = recs
         pairs = [unflatten(r) for r in recs]
         recs, left = [p[0] for p in pairs], [k for p in pairs for k in p[1]]
         if any(not (keep and k.startswith("metric_")) for k in left):
@@ -450,7 +452,37 @@ def option_case(ctx, tri, wire, impl_default, opt, stat_fields, reqs, cases):
         return
     for clause, detail in py_spec(tri.cells, impl)[:3]:
         ctx.fail(f"{label}: " + clause, case, {"where": detail})
-    base = [{k: v for k, v in w.items() if k not in ("e", "tt")} for w in impl]
+    if raw_flat is not None:
+        # the RAW `<metric>_<stat>` entries of the flat record in record order: the driver compares them with the
+        # Lean flattening (Plot.flattenSummaries) of the record re-nested above (Spec.flatOk)
+        try:
+            for w, r in zip(impl, raw_flat):
+                w["fk"] = [[k, ["e", common.w_rat(frac(v))]] for k, v in r.items()
+                           if k not in CORE_KEYS and v is not None and not isinstance(v, (str, bool, dict))
+                           and any(k.endswith("_" + f) for f in stat_fields)
+                           and not (keep and k.startswith("metric_"))]
+        except NonFinite as e:
+            ctx.fail("a summary statistic is not finite", case, str(e))
+            return
+    if not flat:
+        # the `metric` entry of every summary (keep_samples: {i: sample}; otherwise the mean), judged by Spec.keptOk
+        # against the Lean `metricEntry` of the metric recomputed from the cell
+        try:
+            for w, r in zip(impl, recs):
+                ks = []
+                for k, v in r.items():
+                    if isinstance(v, dict) and "snake_case_field" in v:
+                        mt = v.get("metric")
+                        if isinstance(mt, dict):
+                            ks.append([k, ["samples", [[int(i), common.w_rat(frac(x))] for i, x in mt.items()]]])
+                        elif mt is not None:
+                            ks.append([k, ["mean", common.w_rat(frac(mt))]])
+                w["ks"] = ks
+        except (NonFinite, TypeError, ValueError) as e:
+            ctx.fail(f"build_plot_data({label}): a `metric` entry is neither a finite number nor a dict of finite "
+                     "samples", case, str(e))
+            return
+    base = [{k: v for k, v in w.items() if k not in ("e", "tt", "fk", "ks")} for w in impl]
     if len(impl) == len(impl_default) and base != impl_default:
         ctx.fail(f"build_plot_data({label}): coordinates / statistics differ from the default call's records", case,
                  {"default": impl_default, "with options": base})
@@ -464,7 +496,8 @@ def option_case(ctx, tri, wire, impl_default, opt, stat_fields, reqs, cases):
                 break
     if reqs is not None:
         # a flat record cannot show an empty slot: its slots are judged as with remove_empties=True
-        reqs.append({"cells": wire, "impl": impl, "tol": common.w_rat(TOL), "removeEmpties": bool(re_ or flat)})
+        reqs.append({"cells": wire, "impl": impl, "tol": common.w_rat(TOL), "removeEmpties": bool(re_ or flat),
+                     "keepSamples": bool(keep)})
         cases.append((case, impl))
 
 
@@ -813,10 +846,16 @@ def plot_checks(ctx, rng):
     recs = [None] * len(tasks)
     for i, r in zip(order, done):
         recs[i] = r
+    # the facet count a chart must have is the MODEL's slice count of the triangle (Triangle.slices), not the
+    # library's own `len(tri.slices)`
+    outs = common.Driver("drv_c20").run([{"cells": w_cells(t.cells), "impl": None} for t in _PLOT_TRIS])
+    model_slices = [o["nSlices"] for o in outs]
     for rec in recs:
         ti, name = rec["ti"], rec["name"]
         tri = _PLOT_TRIS[ti]
-        ns_real = len(tri.slices)
+        ns_real = model_slices[ti]
+        if len(tri.slices) != ns_real:
+            ctx.disagree("number of slices", {"cells": w_cells(tri.cells)}, ns_real, len(tri.slices))
         case = {"plot": name, "cells": w_cells(tri.cells)}
         st = rec["status"]
         if st == "known-broken":
@@ -1048,7 +1087,15 @@ if __name__ == "__main__":
              "options remove_empties / flat / keep_samples (model buildPlotDataOpt, Spec incl. summary slots and tooltip "
              "sources, key set = core keys + every metric name for remove_empties=False). Plus every plot method that works on the unchanged tree x "
              "6 triangles (12 thorough): to_dict(validate=True) and facet count. distinct = canonical input dump",
-        assumptions=["1-D sample arrays; no zero divisor inside a numpy array (numpy yields inf/nan instead of raising)",
+        assumptions=["ORACLE for the statistics: the harness recomputes mean, median, population sd (through its square), "
+                     "min, max and every named percentile with `fractions` from their textbook characterisations "
+                     "(py_spec / percentile: order statistics of the sorted sample, linear interpolation between the two "
+                     "neighbours of the virtual index p*(n-1)) and judges the IMPLEMENTATION's numbers by them; the Lean "
+                     "functions used by Spec.statOf are tied to the same characterisations by theorems "
+                     "(order_statistics, sortRat_unique, quantile_at_grid, quantile_between, quantile_zero/_one, "
+                     "median_eq_quantile_half, minimum_is_least, maximum_is_greatest, mean_mul_length, variance_pair, "
+                     "variance_eq_mean_sq)",
+                     "1-D sample arrays; no zero divisor inside a numpy array (numpy yields inf/nan instead of raising)",
                      "cells of one triangle are pairwise distinct (field_summaries is a dict keyed by the cell)",
                      "plots: scalar or mixed observed/predicted triangles (an all-sample triangle makes "
                      "_remove_triangle_samples return an empty triangle and several plot methods raise IndexError)"],
